@@ -174,6 +174,7 @@ class Body:
     # ------------------------------------------------------------------ definitions
     def _build_defs(self):
         self.defs = {}          # local -> list of (b, i, whole)
+        self.writes_through = {}  # local -> [(b, i)] assignments to (*local).proj
         self.mut_borrowed = {}  # local -> list of (b, i) where &mut of (a projection of) it is taken
         self.shared_borrowed = {}
         for b, blk in enumerate(self.blocks):
@@ -182,7 +183,11 @@ class Body:
             for i, s in enumerate(blk['st']):
                 if s['s'] == 'assign':
                     p = s['place']
-                    self.defs.setdefault(p['l'], []).append((b, i, not p['pr']))
+                    if p['pr'] and p['pr'][0]['p'] == 'deref':
+                        # a write *through* the pointer held in the local: memory changes, the local does not
+                        self.writes_through.setdefault(p['l'], []).append((b, i))
+                    else:
+                        self.defs.setdefault(p['l'], []).append((b, i, not p['pr']))
                     rv = s['rv']
                     if rv['r'] == 'ref':
                         bp = rv['place']
@@ -210,6 +215,8 @@ class Body:
             sites = []
             for i, s in enumerate(blk['st']):
                 if s['s'] == 'assign':
+                    if s['place']['pr'] and s['place']['pr'][0]['p'] == 'deref':
+                        continue
                     sites.append((s['place']['l'], (b, i), not s['place']['pr']))
                 elif s['s'] == 'setdiscr':
                     sites.append((s['place']['l'], (b, i), False))
@@ -269,6 +276,8 @@ class Body:
         for j in range(n):
             s = blk['st'][j]
             if s['s'] == 'assign' and s['place']['l'] == l:
+                if s['place']['pr'] and s['place']['pr'][0]['p'] == 'deref':
+                    continue
                 if not s['place']['pr']:
                     cur = frozenset([(b, j)])
                 else:
@@ -319,7 +328,11 @@ class Body:
 
     def place(self, p, at):
         t = self.local(p['l'], at)
-        for pr in p['pr']:
+        prs = p['pr']
+        if prs and prs[0]['p'] == 'deref' and p['l'] in self.writes_through:
+            t = ('mload', t, at)
+            prs = prs[1:]
+        for pr in prs:
             t = self.project(t, pr, at)
         return t
 
@@ -620,6 +633,7 @@ def show(t, depth=0):
         nm = t[1].split('|')[-1] if t[1].startswith('adt|') else t[1].split('::')[-1]
         return '%s{%s}' % (nm, ', '.join(show(a, d) for a in t[2]))
     if k == 'phi': return 'phi_%d(%s)' % (t[1], ' | '.join('%s' % show(a[1], d) for a in t[2]))
+    if k == 'mload': return 'load@%s(*%s)' % (t[2], show(t[1], d))
     if k == 'update': return 'update(%s, %s := %s)' % (show(t[1], d), t[2], show(t[3], d))
     if k == 'fn': return 'fn %s' % t[1]
     if k == 'unit': return '()'
